@@ -66,6 +66,16 @@ impl SequenceNumber {
 }
 
 impl SequenceNumber {
+  /// Largest sequence number accepted from the network. Sequence numbers are 64 bits
+  /// on the wire, but a number this large cannot occur legitimately, and accepting
+  /// it would make sequence number arithmetic (stepping to the next number, adding
+  /// the size of a SequenceNumberSet window) overflow.
+  pub(crate) const MAX_ACCEPTED: Self = Self(0x3FFF_FFFF_FFFF_FFFF);
+
+  pub(crate) fn is_acceptable(&self) -> bool {
+    *self <= Self::MAX_ACCEPTED
+  }
+
   pub fn range_inclusive(begin: Self, end: Self) -> SequenceNumberRange {
     SequenceNumberRange::new(begin, end)
   }
